@@ -224,6 +224,8 @@ struct Params {
     how: String,
     /// the client is built with backoff_strategy() before keep_alive() (the setters must commute)
     backoff_first: bool,
+    /// explicit error code of the scripted failing answers
+    failure_code: Option<u32>,
     /// publisher: two 5 KiB items are fed (not flushed) right before every cut, so that the loss
     /// surfaces in poll_ready (the framed writer flushes there once 8 KiB are buffered)
     queued: bool,
@@ -245,7 +247,9 @@ async fn cell(set: Arc<CertSet>, p: Params) -> Result<String, Fail> {
     .map_err(|e| setup("client connect", e.to_string()))?;
     let cutter = Cutter { relay, graceful: p.outage == "graceful", reset: p.outage == "reset", blackhole_ms: if p.outage == "timeout-long" { 6000 } else { 2600 } };
     let topic = "/c12ns/topic";
-    let code = if p.fatal { INVALID_TOPIC_NAME } else { REPLIER_ALREADY_BOUND };
+    // "failure": "code-N" answers the first re-registration with error code N: only the bind error
+    // is transient, every other code is reported at once
+    let code = if let Some(n) = p.failure_code { n } else if p.fatal { INVALID_TOPIC_NAME } else { REPLIER_ALREADY_BOUND };
     let r = match p.kind.as_str() {
         "publisher" => publisher(&mut fake, &cutter, &client, topic, &p, code, &class).await,
         "subscriber" => subscriber(&mut fake, &cutter, &client, topic, &p, code, &class).await,
@@ -881,6 +885,17 @@ fn cells(tier: &str) -> Vec<Value> {
             }
         }
     }
+    // every error code the protocol knows (and two it does not) as the answer to the first
+    // re-registration: code 5 (replier already bound) is the only transient one
+    for kind in kinds {
+        for code in [0u32, 1, 2, 3, 4, 5, 6, 7, 8, 255] {
+            if !thorough && kind != "subscriber" && kind != "replier" && !(code == 7 || code == 0) {
+                continue;
+            }
+            v.push(json!({"cell": id, "kind": kind, "items_before": 0, "outages": 1, "failing_attempts_per_outage": [1], "failure": format!("code-{code}"), "backoff": "constant", "max_attempts": 2}));
+            id += 1;
+        }
+    }
     // back-off delays that saturate: waiting is fine, panicking is not
     for kind in ["subscriber", "publisher"] {
         for step in ["u64-max-seconds", "duration-max", "exponential-saturating"] {
@@ -917,7 +932,8 @@ pub async fn run(tier: &str, replaying: bool) -> ! {
                 pre: c["items_before"].as_u64().unwrap() as usize,
                 outages: c["outages"].as_u64().unwrap() as usize,
                 fails: c["failing_attempts_per_outage"].as_array().unwrap().iter().map(|x| x.as_u64().unwrap() as u32).collect(),
-                fatal: c["failure"].as_str() == Some("unrecoverable"),
+                fatal: c["failure"].as_str() == Some("unrecoverable") || c["failure"].as_str().map_or(false, |f| f.starts_with("code-") && f != "code-5"),
+                failure_code: c["failure"].as_str().and_then(|f| f.strip_prefix("code-")).and_then(|n| n.parse().ok()),
                 backoff: c["backoff"].as_str().unwrap_or("constant").to_string(),
                 max: c["max_attempts"].as_u64().unwrap() as u32,
                 outage: c["outage"].as_str().unwrap_or("close").to_string(),
@@ -951,7 +967,7 @@ pub async fn run(tier: &str, replaying: bool) -> ! {
     finish(
         rep,
         outs,
-        "every cell of: stream kind {publisher, subscriber, requestor, replier} x items exchanged before the first cut {0,1(,2)} x number of successive outages 1..=max+2 x failing re-registration attempts per outage 0..=max x backoff {constant, linear, exponential(2)} (all three in thorough, rotating in quick) with step 5 ms x max attempts {1,2(,3)}, plus (thorough) every non-uniform vector of survivable failure counts over up to three outages, plus cells whose failing attempts fail because the fake server cuts the connection again while the client waits for the answer to its re-registration (instead of answering with an error frame), plus clients built with backoff_strategy() before keep_alive() (the configured budget must still apply), plus a silent outage of 6 s (the first dial of the recovery stays unanswered for more than 5 s; any number of attempts within the budget is accepted, the stream must work again), plus back-off delays that saturate (step u64::MAX s, Duration::MAX, exponential overflowing): after an outage the subscriber / publisher may wait, must not panic and must not retry early, plus the requestor flow driven through a clone of the opened handle (same budget and delays expected), plus outages that start with a reset of the served stream (the client sees a stream-level error before the connection-level one), plus graceful outages (the fake server finishes the served stream cleanly, so the client sees the end of the stream rather than a read error, and then closes the connection), plus repliers whose re-registration is acknowledged and then refused with replier-already-bound and closed (what the real server does while the old binding exists; every acknowledged attempt ends one outage, so the replier must keep re-registering until served), plus publishers with 10 KiB fed but not flushed at the moment of the cut (the loss then surfaces in poll_ready), plus one unrecoverable-answer cell per (kind, max, items), plus silent outages (a UDP relay drops every packet for 2.6 s against a 1.5 s idle time-out, so the connection ends by time-out instead of by a close frame) per (kind, max), plus two clones of one requestor recovering one after the other with a request of the first in flight. Oracle per outage: the re-registration frame equals the original; the fake server counts exactly fails+1 attempts (max when all fail, 1 when unrecoverable) regardless of earlier outages; with fails<max the stream works again (published item reaches the fake server / pushed item is yielded / retried and fresh requests are answered / a request sent to the replier is replied to); with fails==max too-many-retries is reported on the operation that hit the outage or on the next one; an unrecoverable answer is reported immediately. non-trivial = at least two outages or at least one failing attempt",
+        "every cell of: stream kind {publisher, subscriber, requestor, replier} x items exchanged before the first cut {0,1(,2)} x number of successive outages 1..=max+2 x failing re-registration attempts per outage 0..=max x backoff {constant, linear, exponential(2)} (all three in thorough, rotating in quick) with step 5 ms x max attempts {1,2(,3)}, plus (thorough) every non-uniform vector of survivable failure counts over up to three outages, plus cells whose failing attempts fail because the fake server cuts the connection again while the client waits for the answer to its re-registration (instead of answering with an error frame), plus clients built with backoff_strategy() before keep_alive() (the configured budget must still apply), plus a silent outage of 6 s (the first dial of the recovery stays unanswered for more than 5 s; any number of attempts within the budget is accepted, the stream must work again), plus every protocol error code (0-8, 255) as the answer to the first re-registration: only replier-already-bound is retried, every other code is reported at once, plus back-off delays that saturate (step u64::MAX s, Duration::MAX, exponential overflowing): after an outage the subscriber / publisher may wait, must not panic and must not retry early, plus the requestor flow driven through a clone of the opened handle (same budget and delays expected), plus outages that start with a reset of the served stream (the client sees a stream-level error before the connection-level one), plus graceful outages (the fake server finishes the served stream cleanly, so the client sees the end of the stream rather than a read error, and then closes the connection), plus repliers whose re-registration is acknowledged and then refused with replier-already-bound and closed (what the real server does while the old binding exists; every acknowledged attempt ends one outage, so the replier must keep re-registering until served), plus publishers with 10 KiB fed but not flushed at the moment of the cut (the loss then surfaces in poll_ready), plus one unrecoverable-answer cell per (kind, max, items), plus silent outages (a UDP relay drops every packet for 2.6 s against a 1.5 s idle time-out, so the connection ends by time-out instead of by a close frame) per (kind, max), plus two clones of one requestor recovering one after the other with a request of the first in flight. Oracle per outage: the re-registration frame equals the original; the fake server counts exactly fails+1 attempts (max when all fail, 1 when unrecoverable) regardless of earlier outages; with fails<max the stream works again (published item reaches the fake server / pushed item is yielded / retried and fresh requests are answered / a request sent to the replier is replied to); with fails==max too-many-retries is reported on the operation that hit the outage or on the next one; an unrecoverable answer is reported immediately. non-trivial = at least two outages or at least one failing attempt",
         "fault sequences are enumerated exhaustively; scheduling inside tokio/quinn is not controlled",
         json!({"step_ms": STEP_MS}),
         replaying,
